@@ -160,6 +160,8 @@ def gen_family(rng, fam, n):
 _CONSTRUCTS = {
     "front_matter_plus_plain_meta_line_in_body": re.compile(r"\A---\n.*?\n---\n.*^>>", re.S | re.M),
     "number_led_text_value_with_percent_unit": re.compile(r"\{[^}%]*\d\s+[^\W\d][^}%]*%[^}]*\}"),
+    "number_dash_word_text_value": re.compile(r"\{[^}]*\d-[^\W\d][^}]*\}"),
+    "path_style_name": re.compile(r"@\.\.?[/\\]"),
     "unitless_quantity": re.compile(r"\{[^}%]*[^}%\s][^}%]*\}"),
     "fraction_or_mixed_number": re.compile(r"\{[^}]*\d\s*/\s*\d[^}]*\}"),
     "scaling_lock": re.compile(r"\{\s*="),
